@@ -781,6 +781,9 @@ def run(ctx):
                         "correspondence": "Const/Model.v check vs compiler verdict on random nested programs"}, found_input=False)
     dis += r_dis
 
+    if n_app < 0.6 * len(triples) or (r_acc + r_rej) < 0.8 * nrand:
+        ctx.report("generator-degraded", "only %d of %d triples are applicable / %d of %d random programs gave a verdict: the templates no longer match the language"
+                   % (n_app, len(triples), r_acc + r_rej, nrand), {"inapplicable": inapplicable[:20]}, found_input=False)
     ctx.cov["evaluations"] = len(triples) + sum(1 for t in triples if t["ntexts"]) + nrand
     ctx.cov["triples"] = len(triples)
     ctx.cov["applicable"] = n_app
